@@ -32,7 +32,7 @@ ASSUMPTIONS = [
     'asyncio ready-queue order is FIFO (never permuted); schedule diversity comes from probe completion times',
     'probe outcomes follow a per-address liveness model: alive -> pong, dead -> TimeoutError or RemoteException',
     'displacement/admission clauses are asserted in sequential histories only; concurrent histories check structure',
-    'a known node id claimed from another address is a newcomer at a different address like any other: the known '
+    'a known node id claimed from another HOST (every harness address is its own host) is a newcomer at a different address like any other: the known '
     'contact may be replaced only after failing a probe (until cf87ca4 the product replaced it unprobed and the '
     'harness had excused that as an address update)',
 ]
